@@ -144,7 +144,6 @@ func (u *controlUnit) handleRunner(ctx *risc.Context, cycle int, runner *risc.In
 	if should, previousRunner, register := u.shouldUseForwarding(runner, hazards, hazardTypes); should {
 		ch := make(chan int32, 1)
 		previousRunner.Forwarder = ch
-		previousRunner.ForwardRegister = register
 		runner.Receiver = ch
 		runner.ForwardRegister = register
 
